@@ -129,7 +129,7 @@ pub fn run(env: &Env) -> Report {
     let sets = settings16();
     let typeable: Vec<char> = TYPEABLE.chars().collect();
     // work units: (setting index, kind, part)
-    #[derive(Clone)] enum Kind { Short(usize, usize), AcKeys(usize, usize), Emoji(usize, usize), Guided(usize), Suffix(usize), AllSuffixes(usize, usize), Long }
+    #[derive(Clone)] enum Kind { Short(usize, usize), AcKeys(usize, usize), Emoji(usize, usize), Guided(usize), Suffix(usize), AllSuffixes(usize, usize), JoinClasses(usize, usize), Long }
     let mut units: Vec<(usize, Kind)> = vec![];
     let short_sets: Vec<usize> = if env.quick() { vec![(seed as usize) % 16, (seed as usize * 7 + 5) % 16] } else { (0..16).collect() };
     for &si in &short_sets { for g in 0..8 { units.push((si, Kind::Short(g, 8))); } }
@@ -138,6 +138,7 @@ pub fn run(env: &Env) -> Report {
     for k in 0..(if env.quick() { 16 } else { 128 }) { units.push((k % 16, Kind::Guided(k))); units.push((k % 16, Kind::Suffix(k))); }
     // every one of the suffix keys of suffix.json at least once per run (C08 quantifies over all of them)
     for g in 0..8 { units.push(((seed as usize + g * 3) % 16, Kind::AllSuffixes(g, 8))); }
+    for g in 0..8 { units.push(((seed as usize + g * 5 + 1) % 16, Kind::JoinClasses(g, 8))); }
     units.push((0, Kind::Long)); units.push((1, Kind::Long));
     let reps = par_map(units.len(), |ui| {
         let (si, kind) = &units[ui];
@@ -202,6 +203,23 @@ pub fn run(env: &Env) -> Report {
                     let base = bases[(i / groups + seed as usize) % bases.len()];
                     let txt = format!("{}{}", base, sk);
                     if txt.chars().all(crate::code_ok) { run_text(&mut s, &mut t, &mut rep, &txt); rep.count("suffix-key-covered"); }
+                }
+            }
+            Kind::JoinClasses(g, groups) => {
+                // the joining rules look at the LAST character of the base candidate and the FIRST of the suffix: bases whose candidates
+                // end in every vowel sign, independent vowel, ৎ and ং, each with suffixes that begin with every distinct character
+                let bases = ["ma", "kotha", "ki", "pakhi", "nodI", "dadI", "guru", "bodhu", "bhU", "bodhU", "kri", "ke", "se", "chele", "doi", "moi", "koi", "khoi", "hoichoi",
+                             "jhO", "alO", "bhalO", "nou", "mou", "bou", "boi", "koi", "bai", "nei", "keu", "dao", "jao", "sot", "hoTat", "rong", "Dhong", "e", "o", "i", "u", "oi", "ou", "a"];
+                let mut firsts: Vec<(char, String)> = vec![];
+                for sk in &pools.suffixes { if let Some(v) = env.data.suffix.get(sk) { if let Some(c) = v.chars().next() { if firsts.iter().filter(|f| f.0 == c).count() < 2 { firsts.push((c, sk.clone())); } } } }
+                for (bi, base) in bases.iter().enumerate() {
+                    if bi % groups != *g { continue; }
+                    // which final characters this base contributes (for the evidence)
+                    for (cand, _) in &classify(&env.data, &uac, base).items { if let Some(l) = cand.chars().last() { rep.count(&format!("join-base-final-U+{:04X}", l as u32)); } }
+                    for (_, sk) in &firsts {
+                        let txt = format!("{}{}", base, sk);
+                        if txt.chars().all(crate::code_ok) { run_text(&mut s, &mut t, &mut rep, &txt); rep.count("join-class-text"); }
+                    }
                 }
             }
             Kind::Long => {
